@@ -79,13 +79,16 @@ def content(m, meta, budget=4000):
         img.putdata(px)
         image = BlockImage(img)
         for fmt in ("", "<", ">", ".^", "._", "<.^", ">._"):
-            widget = UrwidImage(image, fmt, upscale=False)
+            widget = UrwidImage(image, fmt, upscale=bool(trial % 2))
             size = (w + rng.randint(0, 3), h // 2 + rng.randint(0, 2))
             canv = widget.render(size)
             if not canv.widget_info:
                 canv.finalize(widget, size, False)
             W, H = canv.cols(), canv.rows()
             full = [_cells(r)[0] for r in canv.content()]
+            if trial % 2:
+                # the same widget / image rendered again at another size: a canvas keeps showing what it was built from
+                widget.render((size[0] + 3, size[1] + 2))
             if len(full) != H or any(len(r) != W for r in full):
                 return {"reproduced": True, "input": f"image {w}x{h} fmt={fmt!r} size={size}", "observed": "untrimmed canvas is not rows x cols"}
             for tl in range(W):
